@@ -890,8 +890,10 @@ impl MdGen<'_> {
             _ => format!("Test {k}"),
         };
         let sep = if self.rng.chance(1, 8) { "  " } else { " " };
+        // up to three blanks in front of a heading or a paragraph do not change what it is
+        let indent = if self.rng.chance(1, 8) { " ".repeat(self.rng.range(1, 3)) } else { String::new() };
         Block::Line {
-            text: format!("{}{sep}{title}", "#".repeat(level)),
+            text: format!("{indent}{}{sep}{title}", "#".repeat(level)),
             role: Role::Heading { title },
         }
     }
@@ -907,20 +909,23 @@ impl MdGen<'_> {
             4 => format!("{w} {k} (glob)"),
             _ => format!("{w} paragraph {k}"),
         };
+        let indent = if self.rng.chance(1, 8) { " ".repeat(self.rng.range(1, 3)) } else { String::new() };
         Block::Line {
-            text: title.clone(),
+            text: format!("{indent}{title}"),
             role: Role::Para { title },
         }
     }
 
     fn nonpara(&mut self) -> Block {
         let k = self.next();
-        let (class, text) = match self.rng.below(8) {
+        let (class, text) = match self.rng.below(9) {
             0 => ("list", format!("- item {k}")),
             1 => ("list", format!("* item {k}")),
             2 => ("olist", format!("{k}. step")),
             3 => ("quote", format!("> quoted {k}")),
             4 => ("rule", "***".to_string()),
+            // a rule of dashes (only generated behind a blank line, see `gen_doc`): not a front-matter once content started
+            8 => ("rule-dashes", "---".to_string()),
             5 => ("table", format!("| a{k} | b |")),
             6 => ("html", format!("<!-- comment {k} -->")),
             _ => ("ref", format!("[ref{k}]: http://example.com/{k}")),
@@ -1352,7 +1357,22 @@ impl MdGen<'_> {
                         blocks.push(self.para_line());
                     }
                 }
-                2 => blocks.push(self.nonpara()),
+                2 => {
+                    let mut b = self.nonpara();
+                    // a rule of dashes only behind a blank line or a fenced block (behind text it would be a setext
+                    // underline), and never as the first line (front-matter)
+                    // (leading blank lines do not count as content: scrut reads a `---` behind them as front-matter, which
+                    // the statement does not rule out)
+                    let behind_ok = matches!(blocks.last(), Some(Block::Line { role: Role::Blank, .. }) | Some(Block::Scrut(_)) | Some(Block::Foreign { .. }))
+                        && blocks.iter().any(|b| !matches!(b, Block::Line { role: Role::Blank, .. }));
+                    if let Block::Line { text, role: Role::NonPara { class } } = &mut b {
+                        if class == "rule-dashes" && !behind_ok {
+                            *text = "***".into();
+                            *class = "rule".into();
+                        }
+                    }
+                    blocks.push(b);
+                }
                 3 => blocks.push(self.paralike()),
                 4 => blocks.push(self.foreign()),
                 5 => {
@@ -2268,23 +2288,32 @@ pub fn md_wellformed(doc: &MdDoc) -> Result<(), String> {
                     }
                     Role::Heading { title } => {
                         let rest = t.trim_start_matches('#');
-                        if rest.len() == t.len() || !rest.starts_with(' ') || rest.trim_start() != title || title.is_empty() || text != t {
+                        let indent = text.len() - text.trim_start_matches(' ').len();
+                        if rest.len() == t.len() || !rest.starts_with(' ') || rest.trim_start() != title || title.is_empty() || text.trim_start_matches(' ') != t || indent > 3 {
                             return Err(format!("heading text does not render its title: {text:?}"));
                         }
                     }
                     Role::Para { title } => {
-                        if !starts_letter || title != text || text != t {
+                        let indent = text.len() - text.trim_start_matches(' ').len();
+                        if !starts_letter || title != t || text.trim_start_matches(' ') != t || indent > 3 {
                             return Err(format!("paragraph line must start with a letter: {text:?}"));
                         }
                     }
                     Role::NonPara { .. } | Role::ParaLike { .. } => {
-                        if starts_letter || t.is_empty() || (t.starts_with("```") && !t.trim_start_matches('`').contains('`')) || t == "---" || (t.starts_with('#') && t.trim_start_matches('#').starts_with(' ')) {
+                        if starts_letter || t.is_empty() || (t.starts_with("```") && !t.trim_start_matches('`').contains('`')) || (t == "---" && !matches!(role, Role::NonPara { class } if class == "rule-dashes")) || (t.starts_with('#') && t.trim_start_matches('#').starts_with(' ')) {
                             return Err(format!("line would be read as something else: {text:?}"));
                         }
                     }
                 }
                 if i == 0 && text == "---" {
                     return Err("`---` in the first line is front-matter".into());
+                }
+                if text == "---" && i > 0 {
+                    let behind_ok = matches!(&doc.blocks[i - 1], Block::Line { role: Role::Blank, .. } | Block::Scrut(_) | Block::Foreign { .. })
+                        && doc.blocks[..i].iter().any(|b| !matches!(b, Block::Line { role: Role::Blank, .. }));
+                    if !behind_ok {
+                        return Err("`---` behind text is a setext underline".into());
+                    }
                 }
             }
             Block::Foreign {
